@@ -589,7 +589,7 @@ impl<'a> OverlappingFieldsCanBeMerged<'a> {
 
         for fragment_name2 in &fragment_names2 {
             if visited_fragments.contains(fragment_name2) {
-                return;
+                continue;
             }
 
             visited_fragments.push(fragment_name2);
